@@ -88,6 +88,11 @@ def perturbation(seed, index):
         # when the input is a copy), the output directory being a symbolic link
         'input_mtimes': 0 if index == 0 else rng.randrange(0, 1 << 30),
         'out_link': index != 0 and rng.random() < 0.3,
+        # the compilation under test is the SECOND one of its interpreter (a build script or a test harness that calls
+        # the compiler's main() repeatedly): 1 = the decoy source with the same flags first, 2 = the same source with
+        # the other scope first; both into another output directory (detcompile/inproc.py). Drawn last, so that every
+        # other dimension of a given (seed, index) is what it was before this one existed.
+        'inproc_prior': 0 if index == 0 else (rng.choice([1, 2]) if rng.random() < 0.3 else 0),
     }
 
 
@@ -169,9 +174,25 @@ def compile_once(repo, src, workdir, cfg, pert, _prior=False):
     if pert['shim']:
         env['PYTHONPATH'] = HERE
         env['DETCOMPILE_SEED'] = str(pert['shim_seed'])
-    cmd = [PY, os.path.join(repo, 'tools', 'tzcompiler.py'), '--input_dir', 'in', '--output_dir', 'out',
-           '--tz_version', '2020d', '--action', actions, '--language', language, '--scope', scope,
-           '--start_year', str(start), '--until_year', str(until)] + extra
+    script = os.path.join(repo, 'tools', 'tzcompiler.py')
+    args = ['--input_dir', 'in', '--output_dir', 'out',
+            '--tz_version', '2020d', '--action', actions, '--language', language, '--scope', scope,
+            '--start_year', str(start), '--until_year', str(until)] + extra
+    cmd = [PY, script] + args
+    ip = 0 if _prior else pert.get('inproc_prior', 0)
+    if ip:
+        prior_in = os.path.join(cwd, 'in-prior')
+        if os.path.lexists(prior_in):
+            os.unlink(prior_in)
+        os.symlink(src + '-decoy' if ip == 1 else src, prior_in)
+        shutil.rmtree(os.path.join(cwd, 'out-prior'), ignore_errors=True)
+        os.makedirs(os.path.join(cwd, 'out-prior'))
+        other = {'basic': 'extended', 'extended': 'basic'}[scope]
+        pargs = ['--input_dir', 'in-prior', '--output_dir', 'out-prior',
+                 '--tz_version', '2020d', '--action', actions, '--language', language, '--scope',
+                 scope if ip == 1 else other, '--start_year', str(start), '--until_year', str(until)] + extra
+        # sys.argv of the second compilation is exactly that of a direct run (the invocation is copied into headers)
+        cmd = [PY, os.path.join(HERE, 'inproc.py'), script, json.dumps(pargs), '--'] + args
     # the umask is applied inside the child (the parent's is process-wide and this function runs on 16 threads)
     cmd = ['sh', '-c', 'umask %03o; exec "$@"' % pert['umask'], 'sh'] + cmd
     stdio = pert.get('stdio', 'pipe')
@@ -349,7 +370,7 @@ def run(prop, tier, verif_seed):
     exit_code = 0
     stats = {'compilations': 0, 'files_compared': 0, 'bytes_compared': 0, 'reason_lines_canonicalised': 0,
              'raw_byte_differences_excused': 0}
-    fault_counts = {'input_mtimes_changed': 0, 'output_dir_is_symlink': 0, 'env_extra_variables': 0, 'stdio_not_a_pipe': 0, 'input_dir_not_a_symlink': 0, 'prior_compile_of_other_source': 0, 'home_user_host_changed': 0, 'stale_outputs_present': 0, 'hashseed_changed': 0, 'clock_jumping': 0, 'listing_shuffled': 0, 'tz_changed': 0,
+    fault_counts = {'second_compilation_of_its_interpreter': 0, 'input_mtimes_changed': 0, 'output_dir_is_symlink': 0, 'env_extra_variables': 0, 'stdio_not_a_pipe': 0, 'input_dir_not_a_symlink': 0, 'prior_compile_of_other_source': 0, 'home_user_host_changed': 0, 'stale_outputs_present': 0, 'hashseed_changed': 0, 'clock_jumping': 0, 'listing_shuffled': 0, 'tz_changed': 0,
                     'locale_changed': 0, 'cwd_depth_changed': 0, 'umask_changed': 0}
     samples = []
     distinct = set()
@@ -383,6 +404,8 @@ def run(prop, tier, verif_seed):
                 fault_counts['home_user_host_changed'] += 1
             if p.get('prior_other'):
                 fault_counts['prior_compile_of_other_source'] += 1
+            if p.get('inproc_prior'):
+                fault_counts['second_compilation_of_its_interpreter'] += 1
             if p.get('env_extra'):
                 fault_counts['env_extra_variables'] += 1
             if p.get('stdio', 'pipe') != 'pipe':
@@ -485,7 +508,7 @@ def minimise_perturbation(repo, src, root, cfg, ref, pert, base):
     outputs still differ."""
     cur = dict(pert)
     n = [0]
-    for dim in ('shim', 'stale_outputs', 'prior_other', 'env_extra', 'stdio', 'input_link', 'input_mtimes', 'out_link', 'home_user', 'tz', 'lang', 'umask', 'cwd_depth', 'hashseed'):
+    for dim in ('shim', 'stale_outputs', 'prior_other', 'inproc_prior', 'env_extra', 'stdio', 'input_link', 'input_mtimes', 'out_link', 'home_user', 'tz', 'lang', 'umask', 'cwd_depth', 'hashseed'):
         trial = dict(cur)
         trial[dim] = base[dim]
         if trial == cur:
